@@ -39,7 +39,7 @@ func init() {
 	fw.Register(&fw.Check{
 		ID:    "C08",
 		Level: "fault_enumeration",
-		Rule: "every request program up to the depth bound (BFS, dedup on model state) over {create tables with GC rules under two parents, single and multi-modification family changes, row writes, row deletes, read-modify-write, prefix and full DropRowRange, DeleteTable, re-create} x EVERY crash point of its last request (the request boundaries and a point before and after every file-system call made by metadata persistence, table create and table clear; thorough: each single unlink of the directory removal) with a REAL SIGKILL of the worker process, followed by a restart on the directory; crash-restart chains of length 2 (thorough 3); " +
+		Rule: "every request program up to the depth bound (BFS, dedup on model state) over {create tables with GC rules under two parents, single and multi-modification family changes, row writes, row deletes, read-modify-write, prefix and full DropRowRange, DeleteTable, re-create} x EVERY crash point of its last request (the request boundaries and a point before and after every file-system call made by metadata persistence, table create and table clear; thorough: each single unlink of the directory removal) with a REAL SIGKILL of the worker process (which serves through the public constructor NewServerWithOptions), followed by a restart on the directory through the same constructor; crash-restart chains: every kill strictly inside a schema/clear/create/delete request is followed by every second program of a catalogue (write; create; family drop; clear; write+clear; delete+create+write; create+write+prefix drop) with a clean stop (thorough: with further kills), kills around row writes by single-request second programs with kills; " +
 			"oracle: start-up succeeds and tables, families with GC rules and all rows equal the model of the acknowledged requests, the in-flight request being wholly present or wholly absent; distinct = distinct (program, kill point)",
 		Assumptions: []string{
 			"crash model = process kill: completed system calls persist, nothing is torn inside one call (the statement speaks of stopping/killing the process, not of power loss)",
